@@ -35,8 +35,11 @@ def gen_term(rng, names):
         core = rng.choice(names) + rng.choice(['*', '*', '/']) + rng.choice(names)
     elif r < 0.83:
         core = rng.choice(['2', '3', '0.5', '4.', '10', '1234567', '0.123046875']) + '*' + rng.choice(names)
-    elif r < 0.90:
+    elif r < 0.87:
         core = rng.choice(names) + rng.choice(['*', '/']) + rng.choice(['2', '4', '0.5', '8'])
+    elif r < 0.90:
+        # a number OVER a name: not a multiple of the name
+        core = rng.choice(['2', '4', '0.5', '8', '1']) + '/' + rng.choice(names)
     else:
         # incl. numbers with more than six significant digits (all exactly representable, so sums stay exact)
         core = rng.choice(['1', '2', '2.5', '4', '0.25', '16.', '1234567', '100000.5', '0.123046875', '8388607.5',
